@@ -79,7 +79,7 @@ struct SeqModel
     }
     switch (r.kind) {
       case O_STORE: cur = r.seq; has = true; return true;
-      case O_LOAD: return r.outSeq == cur;
+      case O_LOAD: return r.flag ? r.outSeq == (cur & 1) : r.outSeq == cur;   // r.flag: the SharedVariable<bool> instantiation
       case O_CONSUME: {
           if (r.has != has) {return false;}
           if (has && r.outSeq != cur) {return false;}
@@ -125,7 +125,7 @@ struct SeqModel
   {
     switch (r.kind) {
       case O_STORE: cur = r.seq; has = true; break;
-      case O_LOAD: r.outSeq = cur; break;
+      case O_LOAD: r.outSeq = r.flag ? (cur & 1) : cur; break;
       case O_CONSUME: r.has = has; r.outSeq = has ? cur : 0; has = false; break;
       case O_UPDATE: case O_RESET: case O_TIMEOUT: apply(r); break;
       case O_IS_AVAIL: r.flag = since >= (uint64_t)W; break;
